@@ -8,7 +8,7 @@ from vlib.harness import ok, skip, viol
 PID = "C05"
 RULE = ("Program = [EQU defs] ORG o / [label defs] / <directive> / ZZN NOP / [defs after]. Directives: FCB and FDB lists of "
         "1-64 elements, each a literal in any spelling, a negative number, an EQU symbol (defined before or after), "
-        "a label, a label plus or minus an EQU constant of either sign, or a two-term constant expression; out-of-width elements planted in some cases; FCC with every printable non-blank delimiter and strings "
+        "a label, a label plus or minus an EQU constant of either sign, two labels combined (ZZB-ZZA), or a two-term constant expression; out-of-width elements planted in some cases; FCC with every printable non-blank delimiter and strings "
         "of printable ASCII of length 0-255 (letters only / single spaces / runs of spaces / leading or trailing space "
         "/ ';' / punctuation / the other quote), with and without a trailing '; comment'; RMB n on a boundary grid and "
         "uniform in 0..65535; EQU ORG SETDP NAM END (with and without operand) and INCLUDE of an empty file as no-byte "
@@ -151,6 +151,12 @@ def enumerated(tier, seed):
                     yield dict(dir="FDB", elems=[e], comment=None)
                     yield dict(dir="FDB", elems=[dict(kind="lit", v=1, sp="dec"), e, dict(kind="label", idx=0)], comment=None)
                     yield dict(dir="FCB", elems=[e], comment=None)
+    # two labels in one element (a table length, END-START), alone, in a list, and through an EQU symbol
+    for op in ("-", "+", "r"):
+        e = dict(kind="lablab", op=op)
+        for directive in ("FCB", "FDB"):
+            yield dict(dir=directive, elems=[e], comment=None)
+            yield dict(dir=directive, elems=[dict(kind="lit", v=1, sp="dec"), e, dict(kind="lit", v=2, sp="hex2")], comment=None)
     # lists of 64 elements in their longest spellings (operand fields of 250-640 characters)
     for directive, width in (("FCB", 1), ("FDB", 2)):
         for kind, v, sp in (("lit", 255, "bin8"), ("lit", 200, "hex4"), ("lit", -100, "dec"), ("lit", 255, "dec"), ("equ_before", 77, "dec"),
@@ -231,6 +237,13 @@ def build(case):
                 parts.append(name)
                 v = None
                 out += b"\x00" * width           # patched below once the size is known
+                continue
+            if e["kind"] == "lablab":       # two labels in one element: ZZB-ZZA = 1, ZZA+ZZB = 2*ORG+1
+                parts.append({"-": "ZZB-ZZA", "+": "ZZA+ZZB", "r": "ZZA-ZZB"}[e["op"]])
+                v = {"-": 1, "+": 2 * ORG + 1, "r": -1}[e["op"]]
+                if not lo <= v <= hi:
+                    must_reject = True
+                out += (v % (1 << (8 * width))).to_bytes(width, "big")
                 continue
             if e["kind"] == "labelsym":
                 name = "ZQ%d" % n_equ
